@@ -1,5 +1,5 @@
 (* RetryInv_SubsEx.v — C08: non-vacuity examples and the counterexample under silent faults. *)
-From MQ Require Import Base RetryCore RetrySys CheckRetry RetryProps RetryInv_Subs RetryInv_SubsResub.
+From MQ Require Import Base RetryCore RetrySys CheckRetry RetryProps RetryInv_Subs RetryInv_SubsResub RetryInv_SubsResubContent.
 Open Scope nat_scope.
 
 Lemma closing_only_fp_of_list l :
@@ -91,3 +91,66 @@ Proof.
   intros H. destruct C08_silent_counterexample as (s & Hrun & Hwf & Hq & _ & _ & _ & Hne).
   rewrite (H _ _ _ _ Hrun Hwf Hq) in Hne. discriminate.
 Qed.
+
+(* ---------- re-subscription content ---------- *)
+Definition isresub (e : nat * pkt * wres) : bool := match snd (fst e) with PSubscribe 0 _ => true | _ => false end.
+
+(* Sub a, Sub b, Unsub a (all acknowledged), the connection is cut, the session is lost: the only
+   re-subscription packet of the whole run names b (with its QoS), not a. *)
+Definition ls_b : list label :=
+  connect (CoAccept false) ++
+  [LObserve 1; LTask; LSubmit (USub 1 [(ta, 1%N)]); LTask; LSubmit (USub 2 [(tb, 1%N)]); LTask;
+   LSubmit (UUnsub 3 [ta]); LTask; LIdleCut; LDetectEnd; LBackoff] ++
+  connect (CoAccept false) ++ [LTask; LObserve 2; LTask; LTask].
+
+Example C08_resub_names_current_example :
+  exists s, run cfgT (fun _ _ => FNone) sys0 ls_b = Some s /\ wf_labels ls_b /\ w_hung (s_w s) = false /\
+            quiescent s /\
+            filter isresub (wire_of s) = [(1, PSubscribe 0 [(tb, 1%N)], WAck)] /\
+            b_subs (broker_of s) = [(tb, 1%N)] /\ pending_calls s = [].
+Proof.
+  eexists. split; [vm_compute; reflexivity|]. split; [vm_compute; reflexivity|]. split; [reflexivity|].
+  split.
+  { unfold quiescent. cbn. repeat split. exists 1. split; reflexivity. }
+  repeat split; reflexivity.
+Qed.
+
+(* Sub a acknowledged; SUBSCRIBE b lost with connection 0; Unsub a submitted and deferred behind it.
+   Session lost. State after the Resubscribe task (second re-subscription lost as well):
+   executed = [Sub a; Sub b], pending = [Unsub a]; the re-subscriptions name a and b, the filters the
+   executed calls leave subscribed; Unsub a is still waiting behind them. *)
+Definition ls_c : list label :=
+  connect (CoAccept false) ++
+  [LObserve 1; LTask; LSubmit (USub 1 [(ta, 1%N)]); LTask; LSubmit (USub 2 [(tb, 1%N)]); LTask;
+   LSubmit (UUnsub 3 [ta]); LObserve 1; LTask; LDetectEnd; LBackoff] ++
+  connect (CoAccept false) ++ [LTask; LObserve 2; LTask].
+Definition fl_c : list (nat * nat * fkind) := [(0, 1, FLostAfter); (1, 1, FLostAfter)].
+
+Example C08_executed_example :
+  exists s, run cfgT (fp_of_list fl_c) sys0 ls_c = Some s /\ wf_labels ls_c /\ w_hung (s_w s) = false /\
+            pending_calls s = [UUnsub 3 [ta]] /\
+            subcalls (s_submitted s) = [USub 1 [(ta, 1%N)]; USub 2 [(tb, 1%N)]] ++ pending_calls s /\
+            w_subest (s_w s) = [(ta, 1%N); (tb, 1%N)] /\
+            w_retryq (s_w s) = [RSubscribe 0 [(tb, 1%N)]; RSubscribe 2 [(tb, 1%N)]; DUnsubscribe 3 [ta]] /\
+            filter isresub (wire_of s) = [(1, PSubscribe 0 [(ta, 1%N)], WAck); (1, PSubscribe 0 [(tb, 1%N)], WOk)].
+Proof.
+  eexists. split; [vm_compute; reflexivity|]. split; [vm_compute; reflexivity|]. repeat split; reflexivity.
+Qed.
+
+(* one Resubscribe task on a world with subEstablished = [a@1; b@0; c@2] and a pending PUBLISH:
+   a acknowledged, the SUBACK of b lost with the connection, c deferred, the old queue kept behind *)
+Definition mq : pubreq := {| p_uid := 9; p_qos := 1%N; p_retain := false; p_topic := ta; p_payload := [] |}.
+Definition tc : str := [99%N].
+Definition wx : world :=
+  {| w_clients := [{| cl_inited := true; cl_alive := true; cl_accepted := true; cl_sent := 0 |}];
+     w_broker := broker0; w_wire := []; w_retryq := [RPublish mq];
+     w_subest := [(ta, 1%N); (tb, 0%N); (tc, 2%N)]; w_nrbe := false;
+     w_errs := []; w_acked := []; w_dropped := []; w_hung := false |}.
+
+Example C08_resub_content_example :
+  let w' := task_resubscribe cfgT (fp_of_list [(0, 1, FAckLost)]) wx 0 in
+  cl_inited (get_client wx 0) = true /\ w_hung w' = false /\
+  w_wire w' = [(0, PSubscribe 0 [(ta, 1%N)], WAck); (0, PSubscribe 0 [(tb, 0%N)], WOk)] /\
+  w_retryq w' = [RSubscribe 0 [(tb, 0%N)]; DSubscribe 0 [(tc, 2%N)]; RPublish mq] /\
+  w_subest w' = [(ta, 1%N); (tb, 0%N)].
+Proof. cbv zeta. repeat split; reflexivity. Qed.
